@@ -19,7 +19,7 @@ import rpload
 PROBE = r'''#!/bin/bash
 # records how it was called; exit code taken from PROBE_EXIT_<rank> or PROBE_EXIT
 r=${RP_RANK:-0}
-printf '%s\0' "$@" > "$PROBE_DIR/argv.$r"
+printf '%s\0' "$#" "$@" > "$PROBE_DIR/argv.$r"
 env -0              > "$PROBE_DIR/env.$r"
 pwd                 > "$PROBE_DIR/cwd.$r"
 echo "exe rank=$r" >> "$PROBE_DIR/log"
@@ -188,8 +188,9 @@ def run_task(rp, sb, p, task, launcher, env_extra=None, timeout=60):
         if f.startswith('argv.'):
             r = int(f.split('.')[1])
             raw = open('%s/argv.%d' % (pd, r), 'rb').read()
-            argv = [x.decode('utf8', 'surrogateescape') for x in raw.split(b'\0')[:-1]] if raw else []
-            if raw == b'\0': argv = []          # printf with no arguments writes one NUL
+            argv = [x.decode('utf8', 'surrogateescape') for x in raw.split(b'\0')[:-1]]
+            assert int(argv[0]) == len(argv) - 1, argv      # first field: $#
+            argv = argv[1:]
             envd = {}
             for kv in open('%s/env.%d' % (pd, r), 'rb').read().split(b'\0'):
                 if b'=' in kv:
